@@ -9,17 +9,26 @@ struct Snapshot { long long written ; std::vector<uint8_t> bytes ; } ;
 // part entries: > 0 writef k frames, < 0 write (-k * ch) items, 0 = SFC_UPDATE_HEADER_NOW.
 // returns "" or an error; snapshots (if non-null) are taken after each explicit update, or after every write
 // call when `autohdr` is on.
+static const long long SEEK_MARK = 1ll << 40 ;	// part entry SEEK_MARK + k: sf_seek (k, SEEK_SET) on the write handle (k clipped to the extent)
+
 inline std::string write_partitioned (MemFile &m, const OpenSpec &s, int t, const uint8_t *src, long long N,
 			const std::vector<long long> &part, bool autohdr, std::vector<Snapshot> *snaps, int *updates_done = nullptr)
 {	SNDFILE *f = open_write_mem (m, s) ;
 	if (!f) return std::string ("open_write_failed: ") + sf_strerror (nullptr) ;
 	if (autohdr) sf_command (f, SFC_SET_UPDATE_HEADER_AUTO, nullptr, SF_TRUE) ;
-	int ts = stype_size (t) ; long long done = 0 ;
+	int ts = stype_size (t) ; long long done = 0, extent = 0 ;
 	for (long long p : part)
 	{	if (p == 0)
 		{	sf_command (f, SFC_UPDATE_HEADER_NOW, nullptr, 0) ;
 			if (updates_done) (*updates_done) ++ ;
-			if (snaps) snaps->push_back ({ done, m.data }) ;
+			if (snaps) snaps->push_back ({ extent, m.data }) ;
+			continue ;
+		}
+		if (p >= SEEK_MARK)
+		{	long long k = p - SEEK_MARK ; if (k > extent) k = extent ;
+			sf_count_t got = sf_seek (f, k, SEEK_SET) ;
+			if (got != k) { std::string d = "write_seek_failed: to " + std::to_string (k) + " returned " + std::to_string ((long long) got) + " " + sf_err_text (f) ; sf_close (f) ; return d ; }
+			done = k ;
 			continue ;
 		}
 		long long fr = p < 0 ? -p : p ;
@@ -29,12 +38,13 @@ inline std::string write_partitioned (MemFile &m, const OpenSpec &s, int t, cons
 		sf_count_t w = p < 0 ? sf_write_t (f, t, b.p, fr * s.ch) : sf_writef_t (f, t, b.p, fr) ;
 		sf_count_t want = p < 0 ? fr * s.ch : fr ;
 		if (w != want) { std::string d = "short_write: " + std::to_string ((long long) w) + " of " + std::to_string ((long long) want) + " " + sf_err_text (f) ; sf_close (f) ; return d ; }
-		done += fr ;
-		if (autohdr && snaps) snaps->push_back ({ done, m.data }) ;
+		done += fr ; if (done > extent) extent = done ;
+		if (autohdr && snaps) snaps->push_back ({ extent, m.data }) ;
 	}
-	if (done < N)
-	{	long long fr = N - done ;
-		Block b ((size_t) fr * s.ch * ts) ; memcpy (b.p, src + (size_t) done * s.ch * ts, b.n) ;
+	if (extent < N)
+	{	if (done != extent && sf_seek (f, extent, SEEK_SET) != extent) { sf_close (f) ; return "write_seek_failed: to extent" ; }
+		long long fr = N - extent ;
+		Block b ((size_t) fr * s.ch * ts) ; memcpy (b.p, src + (size_t) extent * s.ch * ts, b.n) ;
 		if (sf_writef_t (f, t, b.p, fr) != fr) { sf_close (f) ; return "short_write: tail" ; }
 	}
 	int rc = sf_close (f) ;
